@@ -37,10 +37,12 @@ def _setup(log, old, new, alive, started, new_dies=False, broken_during=False):
             spawned.append((p, len(log)))
 
     fake._adjust_process_count = adjust
-    fake._wait_job_completion = lambda: log.add("wait-jobs", rl.held)
+    fake._wait_job_completion = lambda: log.add("wait-jobs", rl.held, mgmt.held)
     idle = [0]
 
     def sleep(dt):
+        if mgmt.held:
+            log.add("waiting-with-mgmt-lock")
         # environment progress: a worker that can take a sentinel takes it and leaves through the manager
         sentinels = [x for x in cq.items if x is None]
         live = [p for p in procs.values() if p.alive]
@@ -99,6 +101,10 @@ def check_resize(old: int, new: int, alive: List[bool], started: bool) -> bool:
     # waits for the jobs first, under the submit/resize lock
     if log.count("wait-jobs", True) != 1:
         return False
+    # ... and never while holding the processes management lock: the manager thread needs that lock to handle a
+    # worker that leaves (idle time-out, memory-leak exit) while the jobs complete or while _resize polls
+    if log.count("wait-jobs", True, False) != 1 or log.count("waiting-with-mgmt-lock"):
+        return False
     sent = [e for e in log if e == ("cq-put", None)]
     if len(sent) != max(0, n_alive - new):
         return False  # exactly one sentinel per surplus live worker
@@ -137,4 +143,45 @@ def check_resize_terminates(old: int, new: int, n_dead: int, new_dies: bool, bro
             return False  # the call spins for ever although nothing can change any more
     finally:
         rx.time = saved
+    if log.count("wait-jobs", True, False) != 1 or log.count("waiting-with-mgmt-lock"):
+        return False  # waits while holding the management lock: the manager thread cannot handle a departure
     return not rl.held and not mgmt.held
+
+
+def check_wait_job_completion(n_pending: int, done_per_poll: int) -> bool:
+    """
+    pre: 0 <= n_pending <= 4 and 1 <= done_per_poll <= 2
+    post: _
+    """
+    # the real _wait_job_completion: returns exactly when no work item is pending any more (every task submitted
+    # before the resize completes first), warns once iff it had to wait, and only polls - no lock is taken
+    n_pending, done_per_poll = _conc(n_pending, 4), _conc(done_per_poll, 2)
+    log = Log()
+    pending = {i: object() for i in range(n_pending)}
+    polls = [0]
+
+    def sleep(dt):
+        polls[0] += 1
+        if polls[0] > 10:
+            raise Livelock()
+        for _ in range(done_per_poll):
+            if pending:
+                pending.pop(next(iter(pending)))
+
+    fake = NS(_pending_work_items=pending, executor_id=3)
+    saved = (rx.time, rx.warnings, rx.mp)
+    rx.time = NS(sleep=sleep)
+    rx.warnings = NS(warn=lambda *a, **k: log.add("warn", a[1] if len(a) > 1 else k.get("category")))
+    rx.mp = NS(util=NS(debug=lambda *a: None))
+    try:
+        try:
+            _ReusablePoolExecutor._wait_job_completion(fake)
+        except Livelock:
+            return False
+    finally:
+        rx.time, rx.warnings, rx.mp = saved
+    if pending:
+        return False  # returned while submitted work was still pending
+    want_polls = (n_pending + done_per_poll - 1) // done_per_poll
+    return polls[0] == want_polls and log.count("warn") == (1 if n_pending else 0) and \
+        (not n_pending or log[0][1] is UserWarning)
